@@ -1,5 +1,5 @@
 HOOK_COMMITS = ['261214f', '7473a7b', 'b193b9c']
-FIX_COMMITS = ['6ab1b61', 'aa5da3f', '23893cd', 'b2f43bf', '6457cb8', '9d7243e', '99e9484', '2173ac6', '62af4cc', '26a6dc2', '11fc74a', '0f6d027', 'e5a31d6', '90ab653']
+FIX_COMMITS = ['6ab1b61', 'aa5da3f', '23893cd', 'b2f43bf', '6457cb8', '9d7243e', '99e9484', '2173ac6', '62af4cc', '26a6dc2', '11fc74a', '0f6d027', 'e5a31d6', '90ab653', 'c33be62']
 NOTES = ('Every check: proof gate (full coq build, forbidden-construct scan, Print Assumptions allow-list = empty) '
          '+ correspondence (extracted model vs real code on corpus + generated cases) + model-free oracle; '
          'known findings in known_findings.json. See DESIGN.md.')
@@ -95,7 +95,7 @@ CLAIMED['C11'] = dict(
          'field = sequence and still valid; Dublin/IPv4: identification = sequence; IPv6: set_unicast_hops_v6 = ttl precedes the send, ICMPv6 / UDP valid under the RFC 8200 '
          'pseudo-header, Dublin payload = "trippy" ++ pattern of length sequence - initial_sequence; unprivileged UDP and TCP: the exact bind / ttl / tos / send_to|connect list; '
          'out-of-range sizes give InvalidPacketSize and send nothing; no cell faults for ANY packet size and ANY injected socket error; ErrorMapper as written. '
-         'Two defects repaired (zero UDP checksum over IPv6; panic on the 257th pending TCP probe), one recorded (Paris/IPv6 sequence 0).',
+         'Three defects repaired (zero UDP checksum over IPv6; panic on the 257th pending TCP probe; Paris/IPv6 with initial sequence 0 is now refused by the builder, and every issued sequence is proved >= 1 for that cell: c11_paris6_sequence_nonzero).',
     note='trusted: Coq kernel; hand-written model (Net/Wire.v, Sock.v, Dispatch4.v, Dispatch6.v, ChannelSend.v) tied to the code by differential execution of the real '
          'Channel over a recording Socket; no axioms. Ipv4ByteOrder::Host is proved but not tied to code (variant absent on Linux). The kernel-written IPv6 header and the OS '
          'socket layer are outside the model.',
